@@ -1,6 +1,7 @@
 import DatamonVerif.Drv.C22
 import DatamonVerif.Drv.C21
 import DatamonVerif.Drv.Cafs
+import DatamonVerif.Drv.C04
 open DV
 
 def main (args : List String) : IO UInt32 := do
@@ -10,6 +11,7 @@ def main (args : List String) : IO UInt32 := do
   | ["model", "C01"] => loop CafsDrv.handler inp out CafsDrv.handler.init; return 0
   | ["model", "C02"] => loop CafsDrv.handler inp out CafsDrv.handler.init; return 0
   | ["model", "C03"] => loop CafsDrv.handler inp out CafsDrv.handler.init; return 0
+  | ["model", "C04"] => loop C04.handler inp out C04.handler.init; return 0
   | ["model", "C21"] => loop C21.handler inp out C21.handler.init; return 0
   | ["model", "C22"] => loop C22.handler inp out C22.handler.init; return 0
   | _ => IO.eprintln "usage: dvdriver model <Cxx>"; return 2
